@@ -237,6 +237,9 @@ def name_step(line):
                         out.append(str(c.absolute_name(k)))
                     except Exception as e:  # noqa: B902
                         out.append(err_kind(e))
+                    res(lambda: c.register_key(key="d/e", access=W))
+                    res(lambda: setattr(c, "d/e", 3))
+                    out.append(res(lambda: c.d.e))          # dotted access through the client's own namespace
                     return "R " + "|".join(out)
                 if t[0] == "cshare":
                     Blackboard.clear()
